@@ -30,6 +30,7 @@ func init() {
 			ruleHandlerLookup(c, "R7")
 			rulePoolReleaseOnce(c, "R8")
 			ruleNarrowingGuarded(c, "R9")
+			ruleGlobals(c, "R10")
 			ruleIndexResetOnEveryPath(c, "R2c")
 		},
 	})
